@@ -134,3 +134,25 @@ V("C20", "to_scaled transposed", "R20.5", (GEO, "fractional = np.linalg.solve(ce
 V("C20", "twin: explicit inverse", "silent", (GEO, "fractional = np.linalg.solve(cell.T, positions.T).T", "fractional = np.dot(positions, np.linalg.inv(cell))"))
 V("C20", "to_cartesian transposed", "R20.5", (GEO, "cartesian_positions = np.dot(scaled_positions, cell)", "cartesian_positions = np.dot(scaled_positions, cell.T)"))
 V("C20", "complete_cell not normalised", "R20.6", (GEO, "    c_norm = c / np.linalg.norm(c)\n    c_norm = c_norm[None, :]", "    c_norm = c\n    c_norm = c_norm[None, :]"))
+
+# ------------------------------------------------------------------------------------------ C17
+V("C17", "Class3D for dimensionality 1", "R17.1", (CLS, "        elif dimensionality == 1:\n            classification = Class1D(input_system)", "        elif dimensionality == 1:\n            classification = Class3D(input_system)"))
+V("C17", "dimensionality 3 falls through to None", "R17.1", (CLS, "        elif dimensionality == 3:\n            classification = Class3D(input_system)", "        elif dimensionality == 4:\n            classification = Class3D(input_system)"))
+V("C17", "Unknown branch dropped", "R17.1", (CLS, "        if dimensionality is None:\n            return Unknown(input_system)\n", "        if dimensionality is None:\n            pass\n"))
+V("C17", "Atom for two atoms", "R17.1", (CLS, "            if n_atoms == 1:\n                classification = Atom(input_system)", "            if n_atoms <= 2:\n                classification = Atom(input_system)"))
+V("C17", "dimensionality of the unwrapped input", "R17.1", (CLS, "            system, self.cluster_threshold, distances.dist_matrix_radii_mic", "            input_system, self.cluster_threshold, distances.dist_matrix_radii_mic"))
+V("C17", "coverage test dropped", "R17.2", (CLS, "                if covered and region_is_periodic:", "                if region_is_periodic:"))
+V("C17", "periodicity test dropped", "R17.2", (CLS, "                if covered and region_is_periodic:", "                if covered:"))
+V("C17", "coverage against a constant", "R17.2", (CLS, "covered = coverage >= self.min_coverage", "covered = coverage >= 0.5"))
+V("C17", "Surface and Material2D swapped", "R17.2", (CLS, "                    if best_region.is_2d:\n                        classification = Material2D(input_system, best_region)\n                    else:\n                        classification = Surface(input_system, best_region)",
+                                                     "                    if best_region.is_2d:\n                        classification = Surface(input_system, best_region)\n                    else:\n                        classification = Material2D(input_system, best_region)"))
+V("C17", "one connected direction is enough", "R17.2", (CLS, "region_is_periodic = n_region_conn == 2", "region_is_periodic = n_region_conn >= 1"))
+V("C17", "outliers computed from the wrong universe", "R17.3", (CLF, "all = set(list(range(len(self.atoms))))", "all = set(list(range(len(self.region.cell))))"))
+V("C17", "outliers not a difference", "R17.3", (CLF, "        return list(all - region)", "        return list(all)"))
+V("C17", "wrap the input in place", "R17.4", (CLS, "        system = input_system.copy()\n", "        system = input_system\n"))
+V("C17", "classification carries the working copy", "R17.4", (CLS, "classification = Class3D(input_system)", "classification = Class3D(system)"))
+V("C17", "random seed order", "R17.5", (CLS, "                indices = np.argsort(dist)", "                indices = np.random.permutation(len(dist))"))
+V("C17", "state not initialised", "R17.5", (CLS, "        self.abs_pos_tol = None\n", ""))
+V("C17", "matrix with vdw radii, dimensionality with default", "R17.6", (CLS, "distances = matid.geometry.get_distances(system)", "distances = matid.geometry.get_distances(system, \"vdw\")"))
+V("C17", "cluster_threshold ignored", "R17.6", (CLS, "            system, self.cluster_threshold, distances.dist_matrix_radii_mic", "            system, 3.5, distances.dist_matrix_radii_mic"))
+V("C17", "twin: explicit else for 3D", "silent", (CLS, "        elif dimensionality == 3:\n            classification = Class3D(input_system)", "        else:\n            classification = Class3D(input_system)"))
